@@ -4,6 +4,7 @@ import (
 	"bytes"
 	"context"
 	"fmt"
+	"io"
 	"testing"
 	"testing/synctest"
 	"time"
@@ -17,13 +18,13 @@ import (
 // C10 — a context bounds only its own call; after success its cancellation is harmless.
 
 type c10Op struct {
-	Kind       string // read | write | ping
+	Kind       string // read | write | ping | lockwait (a Write whose context expires while it waits for another goroutine's open message)
 	Len        int
 	Frags      int
 	CtlInside  bool
 	Compressed bool
 	PongDelay  time.Duration
-	Ctx        string        // cancel-after | deadline-after | background | cancel-during | deadline-during
+	Ctx        string        // cancel-after | deadline-after | background | cancel-during | deadline-during | cancelled-before
 	Delay      time.Duration // after: time between the call's return and the cancellation; deadline-after: the timeout
 	Pause      time.Duration // pause before the next op
 	Block      string        // for *-during reads: nothing | first-fragment | partial-payload | partial-header
@@ -40,10 +41,11 @@ func genC10(rt *rapid.T) c10Case {
 	var c c10Case
 	c.Mode = rapid.SampledFrom(c16Modes).Draw(rt, "mode")
 	n := rapid.IntRange(3, 10).Draw(rt, "nOps")
-	during := rapid.IntRange(0, 2).Draw(rt, "endsWithDuring") == 0
+	ending := rapid.IntRange(0, 5).Draw(rt, "ending")
+	during := ending < 2
 	for i := 0; i < n; i++ {
 		var o c10Op
-		o.Kind = rapid.SampledFrom([]string{"read", "read", "write", "write", "ping"}).Draw(rt, "kind")
+		o.Kind = rapid.SampledFrom([]string{"read", "read", "read", "write", "write", "write", "ping", "ping", "lockwait"}).Draw(rt, "kind")
 		o.Len = rapid.SampledFrom([]int{0, 1, 125, 126, 300, 5000, 70000}).Draw(rt, "len")
 		o.Frags = rapid.IntRange(1, 4).Draw(rt, "frags")
 		o.CtlInside = rapid.Bool().Draw(rt, "ctlInside")
@@ -55,7 +57,18 @@ func genC10(rt *rapid.T) c10Case {
 				o.Chunks = append(o.Chunks, rapid.SampledFrom([]int{1, 100, 4080, 4088, 4089, 4090, 4092, 4093, 4094, 4095, 4096, 4097, 9000}).Draw(rt, "chunk"))
 			}
 		}
-		if i == n-1 && during {
+		if i == n-1 && ending == 2 {
+			if o.Kind == "lockwait" {
+				o.Kind = "write"
+			}
+			o.Ctx = "cancelled-before"
+		} else if o.Kind == "lockwait" {
+			o.Ctx = "deadline-during"
+			o.Delay = rapid.SampledFrom([]time.Duration{time.Millisecond, 100 * time.Millisecond, 3 * time.Second}).Draw(rt, "waitTimeout")
+			if o.Len < 2 {
+				o.Len = 300
+			}
+		} else if i == n-1 && during {
 			o.Ctx = rapid.SampledFrom([]string{"cancel-during", "deadline-during"}).Draw(rt, "ctxDuring")
 			o.Block = rapid.SampledFrom([]string{"nothing", "first-fragment", "partial-payload", "partial-header", "pong-blocked"}).Draw(rt, "block")
 			o.Beside = rapid.SampledFrom([]string{"", "ping", "peer-ping"}).Draw(rt, "beside")
@@ -78,6 +91,169 @@ func genC10(rt *rapid.T) c10Case {
 type c10Result struct {
 	NonTrivial bool
 	During     bool
+	LockWait   bool
+	Before     bool
+}
+
+// c10LockWait: goroutine A has a message open through Writer. B's Write has a
+// context that expires while B waits for A's message to end (no I/O of B is in
+// flight): B fails at its deadline, and that is all that happens - A's message is
+// still exclusive (C, with a live context, keeps waiting), the connection stays
+// open, and the peer receives A's message and then C's, intact.
+func c10LockWait(e *env, lc *libConn, i int, o c10Op) string {
+	conn, base := lc.C, context.Background()
+	body := expand(ckText, uint64(i)*31+7, o.Len)
+	half := len(body) / 2
+	synctest.Wait() // the peer has parsed everything written so far
+	before, _ := lc.Peer.snapshot()
+	var w io.WriteCloser
+	var aerr error
+	d := e.Call(func() {
+		w, aerr = conn.Writer(base, websocket.MessageText)
+		if aerr == nil {
+			_, aerr = w.Write(body[:half])
+		}
+	})
+	if !within(d, 10*time.Second) || aerr != nil {
+		return fmt.Sprintf("op %d lockwait: opening the first message failed: %v", i, aerr)
+	}
+	bctx, bcancel := context.WithTimeout(base, o.Delay)
+	defer bcancel()
+	start := time.Now()
+	var berr error
+	bd := e.Call(func() { berr = conn.Write(bctx, websocket.MessageBinary, []byte("B must never be sent")) })
+	if !within(bd, o.Delay+time.Second) {
+		return fmt.Sprintf("op %d lockwait: a Write waiting for another message did not return within 1 s of its own deadline (%v)", i, o.Delay)
+	}
+	if berr == nil {
+		return fmt.Sprintf("op %d lockwait: a second Write returned nil while another goroutine's message was still open", i)
+	}
+	if time.Since(start) < o.Delay {
+		return fmt.Sprintf("op %d lockwait: the waiting Write failed after %v, before its deadline of %v: %v", i, time.Since(start), o.Delay, berr)
+	}
+	if cl, _ := lc.Lib.Closed(); cl {
+		return fmt.Sprintf("op %d lockwait: the connection was closed because a Write gave up waiting for its turn (%v)", i, berr)
+	}
+	third := []byte(fmt.Sprintf("third message of op %d", i))
+	var cerr error
+	cd := e.Call(func() { cerr = conn.Write(base, websocket.MessageBinary, third) })
+	synctest.Wait()
+	select {
+	case <-cd:
+		return fmt.Sprintf("op %d lockwait: after a waiting Write gave up (%v), the next Write did not wait for the open message any more (err=%v): the message lock was released by a call that never held it", i, berr, cerr)
+	default:
+	}
+	d = e.Call(func() {
+		if _, aerr = w.Write(body[half:]); aerr == nil {
+			aerr = w.Close()
+		}
+	})
+	if !within(d, 10*time.Second) || aerr != nil {
+		return fmt.Sprintf("op %d lockwait: finishing the first message failed: %v", i, aerr)
+	}
+	if !within(cd, 10*time.Second) || cerr != nil {
+		return fmt.Sprintf("op %d lockwait: the Write that waited with a live context failed: %v", i, cerr)
+	}
+	synctest.Wait()
+	all, _ := lc.Peer.snapshot()
+	var wire []byte
+	for _, f := range all[len(before):] {
+		f.Masked = false
+		wire = append(wire, f.Encode()...)
+	}
+	rep, verr := ref.ValidateStream(wire, ref.StreamOpts{FromClient: false, Deflate: lc.Agreed.Deflate, Takeover: false}, false)
+	if !lc.Agreed.Deflate || !lc.Agreed.SenderTakeover(lc.Spec.Client) {
+		if verr != nil {
+			return fmt.Sprintf("op %d lockwait: frames on the wire are not two well-formed messages: %v", i, verr)
+		}
+		if len(rep.Messages) != 2 || !bytes.Equal(rep.Messages[0].Payload, body) || !bytes.Equal(rep.Messages[1].Payload, third) {
+			return fmt.Sprintf("op %d lockwait: the peer received %d messages, want exactly the streamed one (%d bytes) and the third", i, len(rep.Messages), len(body))
+		}
+	} else {
+		// with context takeover the frames of this op alone cannot be inflated; check the framing only
+		n, fins := 0, 0
+		for _, f := range all[len(before):] {
+			if f.IsControl() {
+				continue
+			}
+			n++
+			if f.Fin {
+				fins++
+			}
+		}
+		if fins != 2 {
+			return fmt.Sprintf("op %d lockwait: %d data frames with %d final frames on the wire, want two messages", i, n, fins)
+		}
+	}
+	return ""
+}
+
+// c10CancelledBefore: a call made with a context that is already cancelled may
+// fail, and may close the connection, but it must not make later calls with live
+// contexts of their own wait: each of them succeeds or fails at once because the
+// connection is closed.
+func c10CancelledBefore(e *env, lc *libConn, i int, o c10Op, sendIn func([]byte)) string {
+	conn, base := lc.C, context.Background()
+	ctx, cancel := context.WithCancel(base)
+	cancel()
+	payload := expand(ckText, uint64(i)*31+7, o.Len)
+	var d <-chan struct{}
+	switch o.Kind {
+	case "read":
+		sendIn(payload)
+		d = e.Call(func() { conn.Read(ctx) })
+	case "write":
+		if len(o.Chunks) > 0 {
+			d = e.Call(func() {
+				w, err := conn.Writer(ctx, websocket.MessageBinary)
+				if err != nil {
+					return
+				}
+				w.Write(payload)
+				w.Close()
+			})
+		} else {
+			d = e.Call(func() { conn.Write(ctx, websocket.MessageBinary, payload) })
+		}
+	case "ping":
+		d = e.Call(func() { conn.Ping(ctx) })
+	}
+	if !within(d, 10*time.Second) {
+		return fmt.Sprintf("op %d (%s with an already cancelled context) did not return", i, o.Kind)
+	}
+	probe := func(name string, f func(ctx context.Context) error) string {
+		pctx, pcancel := context.WithTimeout(base, 30*time.Second)
+		defer pcancel()
+		var err error
+		pd := e.Call(func() { err = f(pctx) })
+		if !within(pd, 10*time.Second) {
+			cl, _ := lc.Lib.Closed()
+			return fmt.Sprintf("op %d: after a %s with an already cancelled context, a %s with a live 30 s context of its own was still blocked after 10 s (connection closed: %v): the cancelled call left something locked", i, o.Kind, name, cl)
+		}
+		if err != nil {
+			e.sleep(time.Second)
+			if cl, _ := lc.Lib.Closed(); !cl {
+				return fmt.Sprintf("op %d: after a %s with an already cancelled context, a %s with a live context failed (%v) although the connection is open", i, o.Kind, name, err)
+			}
+		}
+		return ""
+	}
+	if m := probe("Write", func(ctx context.Context) error { return conn.Write(ctx, websocket.MessageText, []byte("probe")) }); m != "" {
+		return m
+	}
+	lc.Peer.send(ref.Frame{Fin: true, Opcode: ref.OpText, Payload: []byte("probe in")})
+	if m := probe("Read", func(ctx context.Context) error {
+		for {
+			// earlier unread input may precede the probe message
+			_, b, err := conn.Read(ctx)
+			if err != nil || string(b) == "probe in" {
+				return err
+			}
+		}
+	}); m != "" {
+		return m
+	}
+	return ""
 }
 
 func runC10(t fataler, c c10Case) (string, c10Result) {
@@ -203,6 +379,22 @@ func runC10(t fataler, c c10Case) (string, c10Result) {
 	wireSeen := 0 // outbound data frames accounted for
 	cancelledAfterInteresting := false
 	for i, o := range c.Ops {
+		if o.Kind == "lockwait" {
+			if m := c10LockWait(e, lc, i, o); m != "" {
+				return m, res
+			}
+			res.LockWait = true
+			e.sleep(o.Pause)
+			continue
+		}
+		if o.Ctx == "cancelled-before" {
+			res.During = true
+			res.Before = true
+			if m := c10CancelledBefore(e, lc, i, o, func(pl []byte) { sendMsg(o, pl, "all") }); m != "" {
+				return m, res
+			}
+			break
+		}
 		ctx, cancel := mkCtx(o)
 		during := o.Ctx == "cancel-during" || o.Ctx == "deadline-during"
 		payload := expand(ckText, uint64(i)*31+7, o.Len)
@@ -392,7 +584,7 @@ func runC10(t fataler, c c10Case) (string, c10Result) {
 
 func TestC10(t *testing.T) {
 	rec := evid.For("C10")
-	rec.Rule = "rapid-generated programs of 3-10 operations {read of a message with 1-4 fragments, optional interleaved control frames, optional compression; write of 0..70000 bytes; Ping with the Pong delayed 0/1ms/2s and a reader running beside it}, each with its OWN context: cancelled 0/1ms/1s/1h after the call returned, or a deadline of 5s/1h that expires later, or (last op only) cancelled / expiring DURING the call while synctest.Wait() confirms it is blocked in a header read, payload read, between fragments, a frame write against a zero window, or waiting for a withheld Pong; pauses between ops let timers fire; both roles, with and without compression, in virtual time. Non-trivial: >=1 context ended after a successful multi-frame / control-interleaved / ping operation that is followed by a further operation. distinct = hash(mode, op shapes, context kinds and delays)."
+	rec.Rule = "rapid-generated programs of 3-10 operations {read of a message with 1-4 fragments, optional interleaved control frames, optional compression; write of 0..70000 bytes; Ping with the Pong delayed 0/1ms/2s and a reader running beside it; a Write whose deadline (1ms/100ms/3s) expires while it WAITS for another goroutine's open Writer message, followed by a third Write with a live context that must keep waiting, with the frames on the wire checked}, each with its OWN context: already cancelled before the call (last op only; afterwards Write and Read probes with live contexts must return at once), cancelled 0/1ms/1s/1h after the call returned, or a deadline of 5s/1h that expires later, or (last op only) cancelled / expiring DURING the call while synctest.Wait() confirms it is blocked in a header read, payload read, between fragments, a frame write against a zero window, or waiting for a withheld Pong; pauses between ops let timers fire; both roles, with and without compression, in virtual time. Non-trivial: >=1 context ended after a successful multi-frame / control-interleaved / ping operation that is followed by a further operation. distinct = hash(mode, op shapes, context kinds and delays)."
 	rapid.Check(t, func(rt *rapid.T) {
 		c := genC10(rt)
 		var msg string
